@@ -610,6 +610,19 @@ def stage_pkgconf_requires(rep, rng, n):
     return bad
 
 
+def load_corpus():
+    """corpus/C17/*.json: corner cases (past disagreements, finding witnesses) that run first in every stage."""
+    import glob
+    for f in sorted(glob.glob(os.path.join(common.VERIF, 'corpus', 'C17', '*.json'))):
+        c = json.load(open(f))
+        for s in c.get('specifiers', []):
+            if s not in CORPUS_SPECS:
+                CORPUS_SPECS.append(s)
+        for s in c.get('flags', []):
+            if s not in CORPUS_FLAGS:
+                CORPUS_FLAGS.append(s)
+
+
 def load_local_findings(rep):
     """findings.d/C17.json is merged into known_findings.json by the coordinator; until then (and harmlessly after) the
     open entries are read from the fragment as well."""
@@ -623,6 +636,7 @@ def run(rep):
     rng = random.Random(rep.seed)
     thorough = rep.tier == 'thorough'
     load_local_findings(rep)
+    load_corpus()
     rep.proof_stage(coqchk=thorough)
     fixed = detect_fixed()
     rep.stage('variant', simplify_model='fixed=true (repaired code)' if fixed else 'fixed=false (string sort key)')
